@@ -9,6 +9,7 @@ import OFV.Proofs.C14Gates
 import OFV.Proofs.C14Ffft
 import OFV.Proofs.C14Givens
 import OFV.Proofs.C14FfftAction
+import OFV.Proofs.C14FfftGeneral
 
 namespace OFV.C14
 open OFV.Model.C14 OFV.Spec.C14
@@ -196,6 +197,37 @@ theorem ffft_pow2_is_dft {R : Type} [CommRing R] (w : R) (M : Nat) (hneg : 1 ≤
   have := hd j hj
   rw [Nat.zero_add] at this
   rw [hops, this, Nat.sub_self, pow_zero, pow_one]
+  rw [Finset.sum_eq_single k]
+  · simp
+  · intro b _ hb; simp [hb]
+  · intro hk'; exact absurd (Finset.mem_range.mpr hk) hk'
+
+/-- `ffft_is_dft` — the gate action for EVERY register size `n ≥ 1` (prime, composite, power of two): over any
+commutative ring with an `n`-th root of unity `w` (`w^n = 1`, and `w^(n/2) = −1` when `n` is even), the operations
+emitted by `ffftOps n` — generalised Cooley–Tukey for the ascending prime factorisation: FSWAP shuffles
+`i ↦ (i % ny)·nx + i / ny`, `ny` recursive transforms of size `nx`, the inverse shuffle, `_TwiddleGate(x·y, n)`,
+`nx` transforms of size `ny` (`F0`, or a prime block whose action on coefficients is the size-`p` DFT — the
+specification of `bogoliubov_transform(fft_matrix(p))`, C11 / conjugation oracle), the shuffle again — map the
+coefficient vector of `a†_k` to `w^(k·j)` on `a†_j`. -/
+theorem ffft_is_dft {R : Type} [CommRing R] (w : R) (n : Nat) (hn : 1 ≤ n) (hw : w ^ n = 1)
+    (h2 : 2 ∣ n → w ^ (n / 2) = -1) (k j : Nat) (hk : k < n) (hj : j < n) :
+    runFfft (ringOps w) n (ffftOps n) (fun i => if i = k then 1 else 0) j = w ^ (j * k) := by
+  have hp := primeFactors_prod n n (Nat.le_refl n) hn
+  have hd := ffftRec_isDFT w n hw h2 (primeFactors n n) 0 (fun i => if i = k then (1 : R) else 0)
+    (primeFactors_pos n n) (by rw [hp])
+  rw [hp] at hd
+  obtain ⟨_, hd⟩ := hd
+  have := hd j hj
+  rw [Nat.zero_add] at this
+  have hops : runFfft (ringOps w) n (ffftOps n) (fun i => if i = k then (1 : R) else 0) j
+      = runFfft (ringOps w) n (ffftRec 0 n (primeFactors n n)) (fun i => if i = k then (1 : R) else 0) j := by
+    unfold ffftOps
+    by_cases h1 : n ≤ 1
+    · have : n = 1 := by omega
+      subst this
+      simp [primeFactors, ffftRec]
+    · rw [if_neg h1]
+  rw [hops, this, Nat.div_self (by omega), pow_one]
   rw [Finset.sum_eq_single k]
   · simp
   · intro b _ hb; simp [hb]
